@@ -97,3 +97,6 @@ package surveyor
 //@
 //@ func (*context).SendMsg
 //@   before call:start#1 assert arg0 == c.recvQLen && arg1 == c.survExpire && held(s.Mutex)
+//@
+//@ func (*context).SendMsg
+//@   accepts_shared m
